@@ -183,6 +183,12 @@ def finish(ctx):
     with open(os.path.join(EVIDENCE_DIR, ctx.prop + ".json"), "w") as fp:
         json.dump(ev, fp, indent=1, default=str)
         fp.write("\n")
+    if ctx.tier == "thorough" and os.environ.get("VERIF_REPO", "/repo") == "/repo":
+        # the per-property file is rewritten by every run: keep the record of the last thorough run beside it
+        os.makedirs(os.path.join(EVIDENCE_DIR, "thorough"), exist_ok=True)
+        with open(os.path.join(EVIDENCE_DIR, "thorough", ctx.prop + ".json"), "w") as fp:
+            json.dump(ev, fp, indent=1, default=str)
+            fp.write("\n")
     print("%s tier=%s seed=%d: evaluations=%d nontrivial=%d violations=%d known=%d exhaustive=%s wall=%.1fs"
           % (ctx.prop, ctx.tier, ctx.seed, cov["evaluations"], cov["distinct_nontrivial"], new,
              len(known_seen), cov["exhaustive"], ctx.elapsed()))
